@@ -1,9 +1,11 @@
-(* Driver for the extracted models: one case per input line, one result line
-   per case.  Numbers: integers in decimal, rationals as two tokens "num den".
-   Only conversion and printing glue lives here; everything that decides a
-   result is extracted Coq (model.ml). *)
 module ZZ = Z
-open Model
+module QQ = Q
+open Base_model
+(* Shared glue for the drivers of the extracted models.  This text is pasted
+   after "open <Comp>_model" by the build (harness/common.py build_driver), so
+   the constructor names below refer to that component's extraction of
+   Prelude/Samp/Graph.  Only conversion, parsing, printing and the choice of
+   scripted draws live here; everything that decides a result is extracted Coq. *)
 
 (* ---------- conversions ---------- *)
 let rec pos_of_z (n : ZZ.t) : positive =
@@ -13,38 +15,68 @@ let rec pos_of_z (n : ZZ.t) : positive =
 let z_of_zt (n : ZZ.t) : z =
   if ZZ.sign n = 0 then Z0 else if ZZ.sign n > 0 then Zpos (pos_of_z n) else Zneg (pos_of_z (ZZ.neg n))
 let n_of_zt (n : ZZ.t) : n = if ZZ.sign n = 0 then N0 else Npos (pos_of_z n)
+let n_of_int (i : int) : n = n_of_zt (ZZ.of_int i)
 let rec zt_of_pos = function
   | XH -> ZZ.one
   | XO p -> ZZ.shift_left (zt_of_pos p) 1
   | XI p -> ZZ.succ (ZZ.shift_left (zt_of_pos p) 1)
 let zt_of_z = function Z0 -> ZZ.zero | Zpos p -> zt_of_pos p | Zneg p -> ZZ.neg (zt_of_pos p)
 let zt_of_n = function N0 -> ZZ.zero | Npos p -> zt_of_pos p
+let int_of_n x = ZZ.to_int (zt_of_n x)
 let rec nat_of_int n = if n <= 0 then O else S (nat_of_int (n - 1))
-let rec int_of_nat = function O -> 0 | S n -> 1 + int_of_nat n
+let int_of_nat x = let rec go a = function O -> a | S n -> go (a + 1) n in go 0 x
 let mkq (a : ZZ.t) (b : ZZ.t) : q = { qnum = z_of_zt a; qden = pos_of_z b }
+let qq_of_q (x : q) : QQ.t = QQ.make (zt_of_z x.qnum) (zt_of_pos x.qden)
+let q_of_qq (x : QQ.t) : q = mkq (QQ.num x) (QQ.den x)
 let sq (x : q) : string =
-  let x = qred x in
-  ZZ.to_string (zt_of_z x.qnum) ^ "/" ^ ZZ.to_string (zt_of_pos x.qden)
+  let x = qq_of_q x in
+  ZZ.to_string (QQ.num x) ^ "/" ^ ZZ.to_string (QQ.den x)
 let sn (x : n) = ZZ.to_string (zt_of_n x)
 let sz (x : z) = ZZ.to_string (zt_of_z x)
+let qi (a : int) (b : int) : q = q_of_qq (QQ.of_ints a b)
 
+(* ---------- token reader ---------- *)
+let toks : string list ref = ref []
+let next () = match !toks with t :: r -> toks := r; t | [] -> failwith "unexpected end of line"
+let more () = !toks <> []
+let nint () = int_of_string (next ())
+let nzt () = ZZ.of_string (next ())
+let nq () = let a = nzt () in let b = nzt () in mkq a b
+let nn () = n_of_zt (nzt ())
+let nbool () = nint () = 1
+let nlist f = let k = nint () in List.init k (fun _ -> f ())
+let nopt f = if nint () = 1 then Some (f ()) else None
+let buf = Buffer.create 65536
+let out s = Buffer.add_string buf s
+let skey (k : n list) = String.concat "," (List.map sn k)
+let skeys (ks : n list list) = String.concat ";" (List.map skey ks)
+
+(* names of the Python failure modes of Base/Prelude.v *)
 let err_name = function
   | EoNError -> "EoNError" | ZeroDivision -> "ZeroDivisionError" | IndexErr -> "IndexError"
   | KeyErr -> "KeyError" | TypeErr -> "TypeError" | NameErr -> "NameError"
   | ValueErr -> "ValueError" | PyException -> "Exception"
   | OutOfDraws -> "OutOfDraws" | OutOfFuel -> "OutOfFuel"
 
-(* ---------- token reader ---------- *)
-let toks : string list ref = ref []
-let next () = match !toks with t :: r -> toks := r; t | [] -> failwith "unexpected end of line"
-let nint () = int_of_string (next ())
-let nzt () = ZZ.of_string (next ())
-let nq () = let a = nzt () in let b = nzt () in mkq a b
-let nn () = n_of_zt (nzt ())
-let nlist f = let k = nint () in List.init k (fun _ -> f ())
-let buf = Buffer.create 4096
-let out s = Buffer.add_string buf s
 
+(* ---------- main loop: one case per line, dispatch on the first token ---------- *)
+let main (dispatch : string -> unit) =
+  try
+    while true do
+      let line = input_line stdin in
+      toks := List.filter (fun s -> s <> "") (String.split_on_char ' ' line);
+      Buffer.clear buf;
+      (try dispatch (next ())
+       with Failure m -> out (" DRIVERFAIL " ^ m)
+          | Stack_overflow -> out " DRIVERFAIL stack_overflow"
+          | Not_found -> out " DRIVERFAIL not_found"
+          | Invalid_argument m -> out (" DRIVERFAIL invalid_argument " ^ m));
+      print_endline (Buffer.contents buf)
+    done
+  with End_of_file -> ()
+
+(* GLUE: base err main *)
+(* Driver of component 'base': _ListDict_ (C16) and the helpers of auxiliary.py / get_Pk, PGFs (C20). *)
 (* ---------- C16: _ListDict_ ---------- *)
 let print_ld (s : n ld) =
   let its = List.sort compare (List.map (fun k -> (zt_of_n k, k)) s.items) in
@@ -74,8 +106,12 @@ let run_ld () =
     | "R" -> let k = nn () in step (OpRemove k)
     | "A" -> let k = nn () in step (OpAdd k)
     | "C" ->
-      let r = nint () in let u = nq () in
+      (* one round of choose_random in which random.choice returned key k *)
+      let k = nn () in let u = nq () in
       if not !dead then begin
+        let rec idx i = function [] -> -1 | x :: t -> if zt_of_n x = zt_of_n k then i else idx (i + 1) t in
+        let r = idx 0 (!s).items in
+        if r < 0 then out "X absent" else
         (match ldN_round !s (nat_of_int r) u with
          | Accept k -> out ("A " ^ sn k)
          | Reject -> out "R"
@@ -125,22 +161,10 @@ let run_pnk () =
   for k1 = 0 to m do for k2 = 0 to m do
       out (" " ^ sq (pnk nd (nat_of_int k1) (nat_of_int k2))) done done
 
-let () =
-  try
-    while true do
-      let line = input_line stdin in
-      toks := List.filter (fun s -> s <> "") (String.split_on_char ' ' line);
-      Buffer.clear buf;
-      (try
-         (match next () with
-          | "LD" -> run_ld ()
-          | "SUB" -> run_sub ()
-          | "TS" -> run_ts ()
-          | "DEG" -> run_deg ()
-          | "PNK" -> run_pnk ()
-          | c -> out ("BADCMD " ^ c))
-       with Failure m -> out (" DRIVERFAIL " ^ m)
-          | Stack_overflow -> out " DRIVERFAIL stack_overflow");
-      print_endline (Buffer.contents buf)
-    done
-  with End_of_file -> ()
+let () = main (function
+    | "LD" -> run_ld ()
+    | "SUB" -> run_sub ()
+    | "TS" -> run_ts ()
+    | "DEG" -> run_deg ()
+    | "PNK" -> run_pnk ()
+    | c -> out ("BADCMD " ^ c))
